@@ -86,12 +86,22 @@ def run(chk):
     # ---- identify switch classes and lock owners
     switch_cls = {}
     lock_fields = {}
+    class_level = []
     for c in m.classes.values():
         init = c.methods.get("__init__")
-        if not init:
-            continue
         lf, others = [], {}
-        for n in ast.walk(init.node):
+        # class-level attributes: shared by every instance
+        for n in c.node.body:
+            if isinstance(n, ast.Assign) and len(n.targets) == 1 and isinstance(n.targets[0], ast.Name):
+                fld = mangle(c.name, n.targets[0].id)
+                if is_lock_ctor(n.value):
+                    lf.append(fld)
+                    class_level.append((c.name, fld, n.lineno))
+                else:
+                    others[fld] = n.value
+        if not init and not lf:
+            continue
+        for n in (ast.walk(init.node) if init else []):
             if isinstance(n, ast.Assign) and len(n.targets) == 1 and isinstance(n.targets[0], ast.Attribute) and isinstance(n.targets[0].value, ast.Name) and n.targets[0].value.id == "self":
                 fld = mangle(c.name, n.targets[0].attr)
                 if is_lock_ctor(n.value):
@@ -111,6 +121,8 @@ def run(chk):
     RW = owners[0]
     locks = lock_fields[RW][0]
     switches = [f for f, v in lock_fields[RW][1].items() if isinstance(v, ast.Call) and getattr(v.func, "id", None) == SW]
+    chk.ob("R20.1", "every lock object is created per instance (in __init__), none at class level", not class_level, loc="_rwlock.py", key="C20|R20.1|per-instance",
+           detail="lock(s) constructed at class level are shared by all instances (and by both switches of one RWLock): %s" % class_level)
     chk.floor("R20", "plain locks of the reader-writer lock", len(locks), 3)
     chk.floor("R20", "light switches of the reader-writer lock", len(switches), 2)
     swc = m.classes[SW]
